@@ -26,14 +26,14 @@ Abs(x) == IF x < 0 THEN -x ELSE x
 Ident(i, w) == 1000 * i + w                                  \* row i (1-based), world channel w
 
 NewFrame(F, T, asc, lo, t0, src) ==
-    [F |-> F, T |-> T, asc |-> asc, lo |-> lo, t0 |-> t0, src |-> src, wf |-> FALSE,
+    [F |-> F, T |-> T, asc |-> asc, lo |-> lo, t0 |-> t0, src |-> src, wf |-> FALSE, tsoff |-> 0,
      data |-> [i \in 1..T |-> [j \in 1..F |-> Ident(i, lo + j - 1)]]]
 
 (* round(n / 4) to the nearest integer, ties to even (numpy) *)
 RoundQ(n) == LET f == n \div 4  r == n % 4 IN
              IF r < 2 THEN f ELSE IF r > 2 THEN f + 1 ELSE IF f % 2 = 0 THEN f ELSE f + 1
 
-Proj(f) == [F |-> f.F, T |-> f.T, asc |-> f.asc, lo |-> f.lo, t0 |-> f.t0, src |-> f.src, data |-> f.data]
+Proj(f) == [F |-> f.F, T |-> f.T, asc |-> f.asc, lo |-> f.lo, t0 |-> f.t0, src |-> f.src, data |-> f.data, tsoff |-> f.tsoff]
 
 Active == Len(hist) < MaxOps
 Room == Len(objs) < MaxObjs
@@ -62,6 +62,21 @@ CopyOp(o) ==
     /\ last' = [st |-> "ok"] /\ UNCHANGED files
     /\ Log([name |-> "Copy", o |-> o], [st |-> "ok"])
 
+(* pickle round trip (save_pickle / load_pickle, pickle.dumps / loads): an equal, independent frame without Waterfall *)
+PickleOp(o) ==
+    /\ Active /\ Room /\ o \in 1..Len(objs)
+    /\ objs' = Append(objs, [objs[o] EXCEPT !.wf = FALSE])
+    /\ last' = [st |-> "ok"] /\ UNCHANGED files
+    /\ Log([name |-> "Pickle", o |-> o], [st |-> "ok"])
+
+(* the user (or Cadence.consolidate) replaces the time axis by one that starts tsoff rows later: part of the frame's state
+   that copies and pickles must carry; files do not store it and derived frames start afresh *)
+ShiftTs(o) ==
+    /\ Active /\ o \in 1..Len(objs) /\ objs[o].tsoff = 0
+    /\ objs' = [objs EXCEPT ![o].tsoff = 5]
+    /\ last' = [st |-> "ok"] /\ UNCHANGED files
+    /\ Log([name |-> "ShiftTs", o |-> o], [st |-> "ok"])
+
 (* change the data of one frame (to see that copies / derived frames hold their own data) *)
 Mutate(o) ==
     /\ Active /\ o \in 1..Len(objs)
@@ -73,7 +88,7 @@ Mutate(o) ==
 Slice(o, l, r) ==
     /\ Active /\ Room /\ o \in 1..Len(objs) /\ 0 <= l /\ l < r /\ r <= objs[o].F
     /\ LET f == objs[o]
-           g == [f EXCEPT !.F = r - l, !.lo = f.lo + l,
+           g == [f EXCEPT !.F = r - l, !.lo = f.lo + l, !.tsoff = 0,
                           !.data = [i \in 1..f.T |-> [j \in 1..r - l |-> f.data[i][l + j]]]] IN
        objs' = Append(objs, g)
     /\ last' = [st |-> "ok"] /\ UNCHANGED files
@@ -89,7 +104,7 @@ Dedrift(o, q) ==
        THEN /\ objs' = objs /\ last' = [st |-> "ValueError"] /\ Log(a, [st |-> "ValueError"])
        ELSE LET W == f.F - m
                 start(i) == IF q >= 0 THEN Offset(q, i) ELSE f.F - Offset(q, i) - W
-                g == [f EXCEPT !.F = W, !.lo = IF q >= 0 THEN f.lo ELSE f.lo + m,
+                g == [f EXCEPT !.F = W, !.lo = IF q >= 0 THEN f.lo ELSE f.lo + m, !.tsoff = 0,
                                !.data = [i \in 1..f.T |-> [j \in 1..W |-> f.data[i][start(i - 1) + j]]]] IN
             /\ objs' = Append(objs, g) /\ last' = [st |-> "ok"] /\ Log(a, [st |-> "ok"])
     /\ UNCHANGED files
@@ -117,7 +132,7 @@ Save(o, fmt) ==
 
 Load(k) ==
     /\ Active /\ Room /\ k \in 1..Len(files)
-    /\ objs' = Append(objs, files[k].frame @@ [wf |-> TRUE])
+    /\ objs' = Append(objs, [files[k].frame EXCEPT !.tsoff = 0] @@ [wf |-> TRUE])
     /\ last' = [st |-> "ok"] /\ UNCHANGED files
     /\ Log([name |-> "Load", file |-> k], [st |-> "ok"])
 
@@ -138,7 +153,9 @@ Next == \/ Done
         \/ \E F \in {3, 4, 6}, T \in {2, 3}, asc \in BOOLEAN, lo \in {0, 2}, route \in {"sizes", "data"} : Create(F, T, asc, lo, route)
         \/ \E o \in Os : GetWaterfall(o)
         \/ \E o \in Os : CopyOp(o)
+        \/ \E o \in Os : PickleOp(o)
         \/ \E o \in Os : Mutate(o)
+        \/ \E o \in Os : ShiftTs(o)
         \/ \E o \in Os, l \in 0..5, r \in 1..6 : Slice(o, l, r)
         \/ \E o \in Os, q \in {-6, -4, -3, -1, 0, 2, 3, 5, 9} : Dedrift(o, q)
         \/ \E o \in Os, axis \in {"t", "f"} : Integrate(o, axis)
@@ -167,7 +184,7 @@ DerivedIsCopy ==
           => objs'[o] = objs[o]]_vars
 (* derived frames keep orientation, rows, start time and source name *)
 DerivedKeepMeta ==
-    [][(hist' # hist /\ hist'[Len(hist')].act.name \in {"Slice", "Dedrift", "Copy"} /\ Len(objs') = Len(objs) + 1) =>
+    [][(hist' # hist /\ hist'[Len(hist')].act.name \in {"Slice", "Dedrift", "Copy", "Pickle"} /\ Len(objs') = Len(objs) + 1) =>
           LET p == objs[hist'[Len(hist')].act.o]  c == objs'[Len(objs')] IN
           c.asc = p.asc /\ c.T = p.T /\ c.t0 = p.t0 /\ c.src = p.src]_vars
 =============================================================================
